@@ -122,6 +122,12 @@ def main():
     os.makedirs(dst, exist_ok=True)
     shutil.copy(patch, os.path.join(dst, 'patch.diff'))
     shutil.copy(os.path.join(src, 'demo.rs'), os.path.join(dst, 'demo.rs'))
+    prev = os.path.join(dst, 'meta.json')
+    if os.path.exists(prev) and sys.argv[3:] and sys.argv[3:] != ['all']:
+        # re-evaluation of selected checks: merge into the recorded results
+        old = json.load(open(prev)).get('checks', {})
+        old.update(results)
+        results = old
     meta['seed_id'] = sid
     meta['confirmation'] = conf
     meta['checks'] = results
